@@ -11,7 +11,7 @@ from .. import vlib
 
 LEVEL = "model_checking"
 FAMILY = "score"
-POOL, WORKERS = 4, 2     # concurrent TLC runs x workers each (<= 8 cores)
+POOL, WORKERS = 2, 2     # concurrent TLC runs x workers each (at most 4 TLC workers in total)
 
 COV_NAMES = {
     1: "first-delivery counter reaches its cap", 2: "refresh decays a counter that sits at its cap",
@@ -28,13 +28,18 @@ COV_NAMES = {
     25: "P1 above its cap", 26: "refresh exactly at the activation time (not yet active)", 27: "activation of P3",
     28: "delivery record expired and collected", 29: "mesh-delivery counter reaches its cap", 30: "P3b of a pruned peer",
     31: "IP colocation surplus of two or more (the square matters)",
+    32: "update lowers ONLY the first-delivery cap while a counter of some peer is above the new cap",
+    33: "update lowers ONLY the mesh-delivery cap while a counter of some peer is above the new cap",
+    34: "update lowers both caps while a counter is above a new cap", 35: "update refused by validation (old parameters stay)",
+    36: "update that lowers no cap (weights/decays/thresholds/window/activation/quantum or raised caps) on a topic with history",
+    37: "update re-caps a counter of a retained (disconnected) peer",
 }
 # the obligations of DESIGN section 4 C10 in terms of the tags above (every listed tag must be hit)
 OBLIGATIONS = {
     "cap hit then decay": [1, 2],
     "retention with reconnect": [3, 4, 5, 19, 20, 21],
     "duplicate before / inside / after the delivery window": [7, 8, 9, 10, 11, 12],
-    "recap on parameter update": [13, 14],
+    "recap on parameter update": [13, 14, 32, 33, 34, 35, 36],
     "two topics under the topic cap": [15],
     "colocation above threshold, with and without whitelist": [16, 17, 31],
     "decay-to-zero": [18],
@@ -87,7 +92,7 @@ def model_check(ctx):
                                  timeout=900, name="mc-" + name, workers=WORKERS)
 
     jobs = [("mc", n, c) for n, c in plan] + [("nv", n, c) for n, c in nv]
-    with cf.ThreadPoolExecutor(max_workers=POOL - 1) as ex:    # (the parameter grid runs beside these: 3 x 2 + 2 workers)
+    with cf.ThreadPoolExecutor(max_workers=POOL - 1) as ex:    # (the parameter grid runs beside these: 1 x 2 + 2 workers)
         for (kind, name, c), r in ex.map(one, jobs):
             if kind == "mc":
                 vlib.require_mc_ok(ctx, r, "GenScore %s" % name)
@@ -120,6 +125,11 @@ def generate(ctx):
         ex_plan += [("ex-w%d-ps3" % w, consts(3, 3, topics=("t1",), ids=("m1", "m2", "m3"), maxnow=8, warm=w), 6000) for w in (1, 3)]
         sim_n, sim_keep = 1200, 2400
         sim_L = [18, 26, 34]
+    # every single event - in particular every one-aspect parameter update (each cap lowered alone, both, raised, every
+    # weight/decay/threshold/window/activation/quantum, refused records) - on counters that sit above the lowered caps,
+    # with a retained peer (warm 3) and past activation (warm 1); never sampled
+    ex_plan += [("ex-w%d-L1" % w, consts(1, 1, topics=("t1",), ids=("m1", "m2", "m3"), maxnow=8, warm=w, rich=True), 10 ** 9) for w in (1, 2, 3)]
+    ex_plan += [("ex-w2-ps3-L1", consts(3, 1, topics=("t1",), ids=("m1", "m2", "m3"), maxnow=8, warm=2, rich=True), 10 ** 9)]
     for ps in (1, 2, 3, 4):
         for L in sim_L:
             sim_plan.append(("sim-ps%d-L%d" % (ps, L),
@@ -281,7 +291,7 @@ def replay_part(ctx, given=None):
     os.remove(outp)
 
     viols, cov, tstates = [], [0] * 64, 0
-    with cf.ThreadPoolExecutor(max_workers=max(1, min(vlib.NCPU // 2, 8, len(chunks)))) as ex:
+    with cf.ThreadPoolExecutor(max_workers=max(1, min(vlib.NCPU // 2, 4, len(chunks)))) as ex:
         for v, c, st in ex.map(lambda c: validate_chunk(ctx, c), chunks):
             viols += v
             tstates += st
